@@ -233,6 +233,16 @@ func useCert(c *smx509.Certificate, parent *smx509.Certificate, roots *smx509.Ce
 	_ = c.CheckSignatureFrom(c)
 	_, _ = c.Verify(smx509.VerifyOptions{Roots: roots, CurrentTime: uTime, KeyUsages: []smx509.ExtKeyUsage{smx509.ExtKeyUsageAny}})
 	_, _ = c.Verify(smx509.VerifyOptions{Roots: roots, CurrentTime: uTime, DNSName: "c13.example.org"})
+	// the parsed certificate in the other roles of a chain verification: offered as an intermediate and as a root,
+	// to its own verification and to the verification of a well-formed certificate
+	own := smx509.NewCertPool()
+	own.AddCert(c)
+	_, _ = c.Verify(smx509.VerifyOptions{Roots: roots, Intermediates: own, CurrentTime: uTime, KeyUsages: []smx509.ExtKeyUsage{smx509.ExtKeyUsageAny}})
+	_, _ = c.Verify(smx509.VerifyOptions{Roots: own, CurrentTime: uTime, KeyUsages: []smx509.ExtKeyUsage{smx509.ExtKeyUsageAny}})
+	if parent != nil {
+		_, _ = parent.Verify(smx509.VerifyOptions{Roots: roots, Intermediates: own, CurrentTime: uTime, KeyUsages: []smx509.ExtKeyUsage{smx509.ExtKeyUsageAny}})
+		_, _ = parent.Verify(smx509.VerifyOptions{Roots: own, CurrentTime: uTime, KeyUsages: []smx509.ExtKeyUsage{smx509.ExtKeyUsageAny}})
+	}
 	_ = c.VerifyHostname("c13.example.org")
 	_ = c.Equal(c)
 	_ = c.ToX509()
